@@ -14,7 +14,7 @@
 EXTENDS Integers, Sequences, FiniteSets, TLC, Json
 CONSTANTS Brokers, Res, Routers, Vals,
           MaxLeases, MaxAcq, MaxExpire, MaxRelease, MaxRelAll, MaxCrash, MaxBlip,   \* bounds, lease part
-          MaxAdmin, MaxClose, MaxInval, MaxCompact,                                 \* bounds, router part
+          MaxAdmin, MaxClose, MaxInval, MaxCompact, MaxBatch,                                 \* bounds, router part
           FixRelease,          \* TRUE: Release deletes with a txn guarded by value = self AND lease = the session captured at
                                \*       release start, and is serialised with this broker's acquires (repaired tree);
                                \* FALSE: unconditional, unserialised delete (pinned tree)
@@ -22,6 +22,8 @@ CONSTANTS Brokers, Res, Routers, Vals,
           DevPutIfOwnerOther,  \* deviation: the acquire txn lost its create-if-absent guard (overwrites a foreign key)
           DevReacqBlind,       \* deviation: reacquire() is a plain Put instead of a txn guarded by Value(key) = self
           DevDropSameRev,      \* deviation: the router applies only one of the events that share a revision
+          DevLoadMerge,        \* deviation: loadAll writes the keys it read into the existing table instead of replacing the table
+          DevPutsFirst,        \* deviation: inside one watch response all puts are applied before all deletes (event order lost)
           DevNoReload,         \* deviation: after a closed stream the router resumes its watch without re-reading the prefix
                                \*            (and fast-forwards to the compaction revision when etcd refuses the start revision)
           FixRev,              \* TRUE: watch starts at loadRevision+1 (repaired tree); FALSE: watch starts "now" (pinned tree)
@@ -233,7 +235,8 @@ Load(q) ==
   /\ rst[q] \in {"init", "closed"}
   /\ IF DevNoReload /\ rst[q] = "closed"
      THEN UNCHANGED <<table, revL, inval>>
-     ELSE table' = [table EXCEPT ![q] = Owners] /\ revL' = [revL EXCEPT ![q] = rev] /\ inval' = [inval EXCEPT ![q] = {}]
+     ELSE /\ table' = [table EXCEPT ![q] = IF DevLoadMerge THEN [r \in Res |-> IF Owners[r] # "" THEN Owners[r] ELSE @[r]] ELSE Owners]
+          /\ revL' = [revL EXCEPT ![q] = rev] /\ inval' = [inval EXCEPT ![q] = {}]
   /\ rst' = [rst EXCEPT ![q] = "loaded"]
   /\ Log([a |-> "Load", q |-> q])
   /\ rdel' = NoDel /\ NoEtcd /\ UNCHANGED <<lvars, cnt, from, compacted>>
@@ -248,16 +251,24 @@ WatchStart(q) ==
      ELSE /\ rst' = [rst EXCEPT ![q] = "watching"] /\ from' = [from EXCEPT ![q] = start] /\ UNCHANGED revL
   /\ Log([a |-> "WatchStart", q |-> q])
   /\ rdel' = NoDel /\ NoEtcd /\ UNCHANGED <<lvars, cnt, table, inval, compacted>>
-\* one watch response (all events of revision from[q]) applied under r.mu; the router's rev follows
-Deliver(q) ==
-  /\ rst[q] = "watching" /\ from[q] <= rev
-  /\ LET all == elog[from[q]]
-         evs == IF DevDropSameRev THEN {CHOOSE e \in all : TRUE} ELSE all IN
-     /\ table' = [table EXCEPT ![q] = [r \in Res |-> IF \E e \in evs : e.k = r THEN (CHOOSE e \in evs : e.k = r).v ELSE @[r]]]
-     /\ inval' = [inval EXCEPT ![q] = @ \ {e.k : e \in evs}]
-  /\ revL' = [revL EXCEPT ![q] = from[q]]
-  /\ from' = [from EXCEPT ![q] = @ + 1]
-  /\ Log([a |-> "Deliver", q |-> q])
+\* one watch response carrying the events of n consecutive revisions (a synced watcher gets one revision per response; a
+\* watcher that is catching up gets several), applied in order under r.mu; the router's rev follows
+Deliver(q, n) ==
+  /\ rst[q] = "watching" /\ from[q] + n - 1 <= rev
+  /\ LET revs == from[q]..(from[q] + n - 1)
+         Evs(i) == IF DevDropSameRev THEN {CHOOSE e \in elog[i] : TRUE} ELSE elog[i]
+         Touches(i, k) == \E e \in Evs(i) : e.k = k
+         touched == {k \in Res : \E i \in revs : Touches(i, k)}
+         LastRev(k) == CHOOSE i \in revs : Touches(i, k) /\ \A j \in revs : Touches(j, k) => j <= i
+         LastVal(k) == (CHOOSE e \in Evs(LastRev(k)) : e.k = k).v
+         PutRevs(k) == {i \in revs : \E e \in Evs(i) : e.k = k /\ e.v # ""}
+         Deleted(k) == \E i \in revs : \E e \in Evs(i) : e.k = k /\ e.v = ""
+         New(k) == IF DevPutsFirst THEN (IF Deleted(k) THEN "" ELSE LastVal(k)) ELSE LastVal(k)
+     IN /\ table' = [table EXCEPT ![q] = [r \in Res |-> IF r \in touched THEN New(r) ELSE @[r]]]
+        /\ inval' = [inval EXCEPT ![q] = @ \ touched]
+  /\ revL' = [revL EXCEPT ![q] = from[q] + n - 1]
+  /\ from' = [from EXCEPT ![q] = @ + n]
+  /\ Log([a |-> "Deliver", q |-> q, n |-> n])
   /\ rdel' = NoDel /\ NoEtcd /\ UNCHANGED <<lvars, cnt, rst, compacted>>
 \* the watch channel is closed (cancelled stream); the router will sleep and reload
 WatchClose(q) ==
@@ -278,11 +289,11 @@ LeaseNext == \/ \E b \in Brokers, r \in Res : AcqSession(b, r) \/ AcqTxn(b, r) \
              \/ \E b \in Brokers : SessDone(b) \/ ReleaseAll(b) \/ Crash(b) \/ \E l \in 1..MaxLeases : Monitor(b, l)
 RouterNext == \/ \E k \in Res : AdminDel(k) \/ \E v \in Vals : AdminPut(k, v)
               \/ AdminDelAll \/ Compact
-              \/ \E q \in Routers : Load(q) \/ WatchStart(q) \/ Deliver(q) \/ WatchClose(q) \/ \E k \in Res : Invalidate(q, k)
+              \/ \E q \in Routers : Load(q) \/ WatchStart(q) \/ (\E n \in 1..MaxBatch : Deliver(q, n)) \/ WatchClose(q) \/ \E k \in Res : Invalidate(q, k)
 Next == LeaseNext \/ RouterNext
 Spec == Init /\ [][Next]_vars
 \* liveness formulation of C20: the router's own steps are weakly fair; changes, closes and invalidations are bounded
-FairSpec == Spec /\ \A q \in Routers : WF_vars(Load(q)) /\ WF_vars(WatchStart(q)) /\ WF_vars(Deliver(q))
+FairSpec == Spec /\ \A q \in Routers : WF_vars(Load(q)) /\ WF_vars(WatchStart(q)) /\ WF_vars(Deliver(q, 1))
 
 (* ---------------------------------------------------------------- properties ---------------------------------- *)
 Live(b, r) == r \in owned[b] /\ sess[b] # 0 /\ sess[b] \in alive
